@@ -116,35 +116,8 @@ fn o18n_lzdiff_new_no_overflow() {
     }
 }
 
-//@ obligation: O-18a
-//@ props: C18
-//@ kind: bounded
-//@ bound: one fixed 24-base reference (concrete hash index), min_match_len 8 (key_len 5), every target of length 0..=12 over codes 0..=4
-//@ tier: thorough
-//@ timeout: 2400
-//@ functions: lz_diff::LZDiff::estimate lz_diff::LZDiff::find_best_match_lp lz_diff::LZDiff::cost_match_v2 lz_diff::LZDiff::cost_nrun_v2
-//@ stubs: std::io::_eprint
-//@ claim: bounded stand-in for the C18 anchor "estimate() advances i by back+forward length without rewinding, then subtracts from text_size": LZDiff::estimate raises no arithmetic-overflow / index panic on any target up to 12 symbols against a fixed reference (includes targets = reference[1..], the shape that panicked before fix bc709e6)
-#[kani::proof]
-#[kani::unwind(66)]
-#[kani::stub(std::io::_eprint, stub_eprint)]
-fn o18a_estimate_no_overflow_bounded() {
-    let reference: Vec<u8> = vec![0, 2, 1, 3, 3, 0, 1, 2, 2, 3, 0, 0, 1, 3, 2, 1, 0, 3, 1, 2, 3, 2, 0, 1];
-    let mut lz = LZDiff::new(8);
-    lz.prepare(&reference);
-    let t: [u8; 12] = kani::any();
-    let n: usize = kani::any();
-    kani::assume(n <= 12);
-    let mut i = 0usize;
-    while i < 12 {
-        kani::assume(t[i] <= 4);
-        i += 1;
-    }
-    let target: Vec<u8> = t[..n].to_vec();
-    kani::cover!(n == 12 && t[0] == reference[1] && t[5] == reference[6] && t[11] == reference[12], "shifted copy of the reference reachable");
-    let e = lz.estimate(&target, u32::MAX);
-    kani::assert(e == e, "O-18a: estimate returns (all overflow/bounds checks inside it are the obligation)");
-}
+// (A bounded CBMC harness for LZDiff::estimate over a fixed 24-base reference and targets up to 12 symbols did not
+// terminate in 40 min and was dropped; estimate is proved unbounded in Verus, obligation O-18e.)
 
 #[allow(dead_code)]
 fn stub_eprint(_args: core::fmt::Arguments<'_>) {}
